@@ -80,9 +80,20 @@ class Rec:
         return f
 
 
+# where the on_<event> method of a class-based namespace comes from: the
+# class statement, a plain mixin among the bases (before / after the namespace
+# base), the class after it was created, the instance
+import collections  # noqa: E402
+METHOD_HOMES = ['body', 'mixin_first', 'late', 'body', 'mixin_second',
+                'instance']
+HOME_COUNT = collections.Counter()
+
+
 def mk_class(base, rec, target, event, has_method, is_async, co, ns,
              legacy_arity=None):
     body = {}
+    home = 'body'
+    m = None
     if has_method:
         h = D.wrap_handler(rec.fn(target, legacy_arity), is_async, co)
         if is_async and co:
@@ -91,7 +102,30 @@ def mk_class(base, rec, target, event, has_method, is_async, co, ns,
         else:
             def m(self_, *a):
                 return h(*a)
-        body['on_' + event] = m
+        home = rec.rng.choice(METHOD_HOMES) if getattr(rec, 'rng', None) \
+            else 'body'
+        if home == 'body':
+            body['on_' + event] = m
+        else:
+            bases = (base,)
+            if home.startswith('mixin'):
+                mixin = type('Mixin', (), {'on_' + event: m})
+                bases = (mixin, base) if home == 'mixin_first' else (base,
+                                                                     mixin)
+            cls = type('N%d' % target, bases, body)
+            if home == 'late':
+                setattr(cls, 'on_' + event, m)
+            obj = cls(ns)
+            if home == 'instance':
+                if is_async and co:
+                    async def im(*a):
+                        return await h(*a)
+                else:
+                    def im(*a):
+                        return h(*a)
+                setattr(obj, 'on_' + event, im)
+            HOME_COUNT[home] += 1
+            return obj
     else:
         # a class without on_<event> may well have methods for events with
         # *similar* names (the identifier-like spelling, another case): they
@@ -189,6 +223,7 @@ def server_case(ctx, kind, present, evkind, unrelated, has_method, co, rng,
     d = D.make_drive(kind, async_handlers=False, namespaces='*',
                      serializer=serializer)
     rec = Rec()
+    rec.rng = rng
     try:
         def reg(ev, target, nsp):
             if cancel:
@@ -271,6 +306,7 @@ def incremental_case(ctx, side, kind, co, rng, k):
     event = rng.choice(['ev', 'my_event', 'x1'])
     order = rng.sample([1, 2, 3, 4, 5, 6], rng.randint(2, 6))
     rec = Rec()
+    rec.rng = rng
     w = {'side': side, 'kind': kind, 'event': event, 'namespace': ns,
          'coroutine': co, 'registration_order': order, 'case_index': k,
          'part': 'incremental', 'reserved': False, 'unrelated': False}
@@ -373,6 +409,7 @@ def client_case(ctx, kind, present, evkind, unrelated, has_method, co, rng,
     h = E.make_client(kind, script=script,
                       client_kw={'reconnection': False})
     rec = Rec()
+    rec.rng = rng
     try:
         def reg(ev, target, nsp):
             if cancel:
@@ -548,6 +585,10 @@ def run(ctx):
                 return
     ctx.exhaustive = True
     ctx.extra['grid_cases_run'] = done
+    for home, n_home in HOME_COUNT.items():
+        ctx.count('class_methods_from_' + home, n_home)
+    for home in ('mixin_first', 'mixin_second', 'late', 'instance'):
+        ctx.require('class_methods_from_' + home, 20)
     # registrations that arrive over time, the event dispatched in between
     ctx.require('incremental_dispatches', 100)
     for j in range(60 if ctx.tier == 'quick' else 600):
